@@ -110,6 +110,9 @@ func (r *reference) resolveRef(cfg *Config, opts *options) (value, error) {
 	env := opts.env
 
 	if ok := opts.activeFields.AddNew(r.Path.String()); !ok {
+		if opts.parsed != nil {
+			opts.parsed.cycles++
+		}
 		return nil, raiseCyclicErr(r.Path.String())
 	}
 
